@@ -41,12 +41,16 @@ pub fn content<'a>(line: &'a [u8], term: Term) -> &'a [u8] {
     l
 }
 
+thread_local!(static REGEXES: std::cell::RefCell<std::collections::HashMap<(String, bool), regex::bytes::Regex>> = Default::default());
+
 pub fn model_regex(case: &Case) -> regex::bytes::Regex {
-    regex::bytes::RegexBuilder::new(&case.pattern)
-        .multi_line(true)
-        .crlf(case.cfg.term == Term::Crlf)
-        .build()
-        .expect("model regex")
+    let crlf = case.cfg.term == Term::Crlf;
+    REGEXES.with(|m| {
+        m.borrow_mut()
+            .entry((case.pattern.clone(), crlf))
+            .or_insert_with(|| regex::bytes::RegexBuilder::new(&case.pattern).multi_line(true).crlf(crlf).build().expect("model regex"))
+            .clone()
+    })
 }
 
 pub fn model(case: &Case) -> ModelOut {
